@@ -1,4 +1,5 @@
 import Yaep.Driver.Judge
+import Yaep.Model.FreeTree
 /-!
 # `yaep_model`: the judge as a filter.  stdin: the harness output (echoed case lines +
 observation lines); stdout: verdict and statistics lines.
@@ -116,8 +117,30 @@ def processCase (cfg : ParseCfg) (c : Case) : Array String := Id.run do
           out := out.v cid o.n "C13" "K" (live == 0 && bad == 0) s!"after free_tree liveblocks={live} bad={bad}"
           if walked then
             out := out.v cid o.n "C13" "K" (tcb == nterm) s!"termcb calls={tcb} TERM nodes={nterm}"
+            -- deep tie with the model of free_tree_reduce / free_tree_sweep (Model/FreeTree.lean):
+            -- number of blocks released and callbacks made (name blocks are per rule in C and per
+            -- string in the model: compared only when no two rules share an abstract node name)
+            let tab := o.nodeTable
+            let rootId := toNat (((o.first "root").getD ["0"]).headD "0")
+            let names := match st.defn with
+              | some g => g.rules.filterMap (·.anode) | none => []
+            let uniqueNames := names.length == (strSet names).length
+            let live := kvInt ws "liveblocks"
+            if tableWF tab && !hasBad tab && uniqueNames && live == 0 && kvInt ws "kind" == 1 then
+              let evs := freeTree tab rootId
+              let nfree := ((o.get "ev").filter fun w => w.headD "" == "f").length
+              out := out.v cid o.n "C13" "D" (nfree == (freedBlocks evs).length && tcb == Int.ofNat (termCalls evs).length)
+                s!"free_tree released {nfree} blocks / {tcb} callbacks, model {(freedBlocks evs).length} / {(termCalls evs).length}"
       | none => pure ()
     | _ => pure ()
+  -- C13: the whole alloc/free trace of the case obeys the pairing discipline (traceOK_spec)
+  let trace : List Ev := c.ops.flatMap fun o => (o.get "ev").filterMap fun w =>
+    match w with
+    | "a" :: id :: _ => some (Ev.alloc (toNat id))
+    | "f" :: id :: _ => some (Ev.free (toNat id))
+    | _ => none
+  if !trace.isEmpty then
+    out := out.v cid 0 "C13" "K" (traceOK trace) s!"alloc/free trace of {trace.length} events"
   -- C09: ops that differ only in lookahead / debug level must have one signature
   let keys := strSet (sigs.toList.map (·.1))
   for k in keys do
